@@ -4,7 +4,10 @@
 //	explore -ver v3 -src 150 -prog "50;150" -mode dfs -limit 200000 -traces 40 -seed 1
 //
 // -src N: the Number has N digits (digit at position p is 1 + p%9), -1: endless. -prog: readers separated by ';',
-// each a list of At positions separated by ','. Output: TRACE lines (a sample of schedules with their event
+// each a list of operations separated by ',':  P = At(P);  sAxK = forward traversal of WithStart(A) stopped after K
+// items (v3 All() with break, v1 FullIterator, v2 Iterator);  bE = complete backward traversal of WithEnd(E).
+// Every memoizer.wait call of every operation is an event pair (C g index / T g index len ok) emitted by the
+// instrumented copy. Output: TRACE lines (a sample of schedules with their event
 // traces, for validation against the Coq transition system), DEADLOCK / WRONG / PANIC lines with the schedule,
 // and one SUMMARY line.
 package main
@@ -46,41 +49,150 @@ func expected(srcLen, p int) int {
 	return 1 + p%9
 }
 
-type atFn func(p int) int
+// one reader operation
+type op struct {
+	kind string // "at", "fwd", "bwd"
+	a, k int
+}
 
-func newNumber(ver string, srcLen int) atFn {
+func (o op) String() string {
+	switch o.kind {
+	case "at":
+		return strconv.Itoa(o.a)
+	case "fwd":
+		return fmt.Sprintf("s%dx%d", o.a, o.k)
+	}
+	return fmt.Sprintf("b%d", o.a)
+}
+
+// expectedOp: the sequential answer, flattened
+func expectedOp(srcLen int, o op) []int {
+	switch o.kind {
+	case "at":
+		return []int{expected(srcLen, o.a)}
+	case "fwd":
+		var out []int
+		for p := max(o.a, 0); len(out) < 2*o.k && expected(srcLen, p) != -1; p++ {
+			out = append(out, p, expected(srcLen, p))
+		}
+		return out
+	}
+	var out []int
+	hi := o.a
+	if srcLen >= 0 && srcLen < hi {
+		hi = srcLen
+	}
+	for p := hi - 1; p >= 0; p-- {
+		out = append(out, p, expected(srcLen, p))
+	}
+	return out
+}
+
+type number interface{ do(o op) []int }
+
+type num1 struct{ n *v1.Number }
+type num2 struct{ n *v2.Number }
+type num3 struct{ n v3.Number }
+
+func (x num1) do(o op) []int {
+	switch o.kind {
+	case "at":
+		return []int{x.n.At(o.a)}
+	case "fwd":
+		var out []int
+		it := x.n.WithStart(o.a).FullIterator()
+		for len(out) < 2*o.k {
+			d, ok := it()
+			if !ok {
+				break
+			}
+			out = append(out, d.Position, d.Value)
+		}
+		return out
+	}
+	var out []int
+	it := x.n.WithEnd(o.a).FullReverse()
+	for d, ok := it(); ok; d, ok = it() {
+		out = append(out, d.Position, d.Value)
+	}
+	return out
+}
+
+func (x num2) do(o op) []int {
+	switch o.kind {
+	case "at":
+		return []int{x.n.At(o.a)}
+	case "fwd":
+		var out []int
+		it := x.n.WithStart(o.a).Iterator()
+		for len(out) < 2*o.k {
+			d, ok := it()
+			if !ok {
+				break
+			}
+			out = append(out, d.Position, d.Value)
+		}
+		return out
+	}
+	var out []int
+	it := x.n.WithEnd(o.a).Reverse()
+	for d, ok := it(); ok; d, ok = it() {
+		out = append(out, d.Position, d.Value)
+	}
+	return out
+}
+
+func (x num3) do(o op) []int {
+	switch o.kind {
+	case "at":
+		return []int{x.n.At(o.a)}
+	case "fwd":
+		var out []int
+		if o.k == 0 {
+			return out
+		}
+		for p, d := range x.n.WithStart(o.a).All() {
+			out = append(out, p, d)
+			if len(out) >= 2*o.k {
+				break
+			}
+		}
+		return out
+	}
+	var out []int
+	for p, d := range x.n.WithEnd(o.a).Backward() {
+		out = append(out, p, d)
+	}
+	return out
+}
+
+func newNumber(ver string, srcLen int) number {
 	switch ver {
 	case "v1":
-		n := v1.VerifNewNumber(gen{srcLen}.source(), 1)
-		return n.At
+		return num1{v1.VerifNewNumber(gen{srcLen}.source(), 1)}
 	case "v2":
-		n := v2.VerifNewNumber(gen{srcLen}.source(), 1)
-		return n.At
+		return num2{v2.VerifNewNumber(gen{srcLen}.source(), 1)}
 	}
-	n := v3.NewNumber(gen{srcLen})
-	return n.At
+	return num3{v3.NewNumber(gen{srcLen})}
 }
 
 type runResult struct {
 	made, alts []int
 	verdict    string
-	results    [][]int
+	results    [][][]int
 	trace      []string
 }
 
-func run(ver string, srcLen int, prog [][]int, prefix []int, rnd func(n int) int) runResult {
+func run(ver string, srcLen int, prog [][]op, prefix []int, rnd func(n int) int) runResult {
 	s := vsyncx.New()
-	at := newNumber(ver, srcLen)
-	res := runResult{results: make([][]int, len(prog))}
+	n := newNumber(ver, srcLen)
+	res := runResult{results: make([][][]int, len(prog))}
 	for i, calls := range prog {
 		i, calls := i, calls
 		var g *vsyncx.G
 		g = vsyncx.Go(func() {
-			for _, p := range calls {
-				vsyncx.Note("C %d %d", vsyncx.CurrentID(), p)
-				d := at(p)
-				vsyncx.Note("T %d %d %d", vsyncx.CurrentID(), p, d)
-				res.results[i] = append(res.results[i], d)
+			for _, o := range calls {
+				res.results[i] = append(res.results[i], n.do(o))
 			}
 		})
 		g.Reader = true
@@ -106,25 +218,60 @@ func run(ver string, srcLen int, prog [][]int, prefix []int, rnd func(n int) int
 	return res
 }
 
-func parseProg(s string) [][]int {
-	var prog [][]int
+func parseProg(s string) [][]op {
+	bad := func() {
+		fmt.Fprintln(os.Stderr, "bad program", s)
+		os.Exit(2)
+	}
+	var prog [][]op
 	for _, r := range strings.Split(s, ";") {
-		var calls []int
+		var calls []op
 		for _, c := range strings.Split(r, ",") {
 			c = strings.TrimSpace(c)
 			if c == "" {
 				continue
 			}
-			v, err := strconv.Atoi(c)
-			if err != nil {
-				fmt.Fprintln(os.Stderr, "bad program", s)
-				os.Exit(2)
+			switch c[0] {
+			case 's':
+				parts := strings.Split(c[1:], "x")
+				if len(parts) != 2 {
+					bad()
+				}
+				a, e1 := strconv.Atoi(parts[0])
+				k, e2 := strconv.Atoi(parts[1])
+				if e1 != nil || e2 != nil {
+					bad()
+				}
+				calls = append(calls, op{"fwd", a, k})
+			case 'b':
+				e, err := strconv.Atoi(c[1:])
+				if err != nil {
+					bad()
+				}
+				calls = append(calls, op{"bwd", e, 0})
+			default:
+				v, err := strconv.Atoi(c)
+				if err != nil {
+					bad()
+				}
+				calls = append(calls, op{"at", v, 0})
 			}
-			calls = append(calls, v)
 		}
 		prog = append(prog, calls)
 	}
 	return prog
+}
+
+func eqInts(a, b []int) bool {
+	if len(a) != len(b) {
+		return false
+	}
+	for i := range a {
+		if a[i] != b[i] {
+			return false
+		}
+	}
+	return true
 }
 
 func ints(a []int) string {
@@ -152,9 +299,9 @@ func main() {
 			return r.verdict
 		}
 		for i, calls := range prog {
-			for j, p := range calls {
-				if r.results[i][j] != expected(*src, p) {
-					return fmt.Sprintf("WRONG reader %d At(%d) = %d, want %d", i, p, r.results[i][j], expected(*src, p))
+			for j, o := range calls {
+				if want := expectedOp(*src, o); !eqInts(r.results[i][j], want) {
+					return fmt.Sprintf("WRONG reader %d op %s = %v, want %v", i, o, r.results[i][j], want)
 				}
 			}
 		}
